@@ -372,6 +372,7 @@ func TestCheck(t *testing.T) {
 	defer r.Finish()
 	r.SetRule("flows = {accepted ECH, accepted ECH + HelloRetryRequest + retried hello, plain pass-through} followed by record streams in both directions whose lengths cover 0..2^14+256 (protected) and 1..2^14 (plaintext types): " +
 		"boundary lengths in every run, all lengths in the thorough tier. Each flow is replayed under transport read chunking {1, 2, 3, 7, 1460, whole, random}, caller buffers {1, 5, 6, 4096, 16384, 65536}, backend write splits {1 byte, 5, random, whole}; " +
+		"real crypto/tls flights (accepted ECH with and without HelloRetryRequest, captured live) replayed under the same chunkings with the unfragmented replay as reference; " +
 		"fault enumeration: transport EOF / unexpected EOF / error / error-with-data at EVERY byte offset of the client stream for small flows, and transport write failures at every 7th offset. " +
 		"Oracle: conservation and order over the tap logs. distinct = distinct (flow kind, chunking, buffer, split, cut offset, error kind) replays executed")
 	r.Assume("expected upstream bytes = generator's inner hello(s) + the client's other bytes; record-header version bytes of rewritten hellos are not compared",
